@@ -303,15 +303,18 @@ def _check_directory_structure_validity(paths):
         If a path is repeated as both a leaf and a node in the directory structure.
 
     """
-    check = set()
+    paths = list(paths)
+    # Collect all nodes first, so that the result does not depend on the order of paths.
+    nodes = set()
     for dst in paths:
-        if dst in check:
+        tokens = dst.split(os.path.sep)
+        for i in range(1, len(tokens)):
+            nodes.add(os.path.sep.join(tokens[:i]))
+    for dst in paths:
+        if dst in nodes:
             raise RuntimeError(
                 f"The path '{dst}' is both a leaf and node in the path structure."
             )
-        tokens = dst.split(os.path.sep)
-        for i in range(1, len(tokens)):
-            check.add(os.path.sep.join(tokens[:i]))
 
 
 def _export_jobs(jobs, path, copytree):
@@ -348,6 +351,16 @@ def _export_jobs(jobs, path, copytree):
 
     # Determine export path for each job.
     paths = {job.path: path_function(job) for job in jobs}
+
+    # The automatic (schema-based) path is not guaranteed to be unique either,
+    # e.g., str(True) == str("True"), so check all kinds of path specifications.
+    duplicates = [p for p, count in Counter(paths.values()).items() if count > 1]
+    if duplicates:
+        raise RuntimeError(
+            f"The path specification '{path}' would result in duplicate paths "
+            f"(e.g. '{duplicates[0]}'). Provide a custom path, for example one that "
+            "includes '{job.id}'."
+        )
 
     # Check leaf/node consistency
     _check_directory_structure_validity(paths.values())
